@@ -125,8 +125,9 @@ Definition config_ok (cfg : config) : bool :=
   && negb (global_has_allow cfg && global_has_deny cfg)
   && forallb (fun r => negb (rule_has_allow r && rule_has_deny r)) (rules cfg).
 
-(* ---- placement rules: commands/context.rs:471-495 keeps the rules that have a placement field,
-   in declaration order; the index into structure.rules is kept for reporting ---- *)
+(* ---- placement rules: commands/context.rs builds one AllowlistRule for EVERY structure rule, in
+   declaration order (a rule without placement fields restricts nothing but can still be the one
+   selected); the index into structure.rules is kept for reporting ---- *)
 Definition has_placement (r : srule) : bool :=
   nonempty (sr_allow_ext r) || (0 <? sr_allow_patterns r) || (0 <? sr_allow_files r) || (0 <? sr_allow_dirs r)
   || nonempty (sr_deny_ext r) || (0 <? sr_deny_patterns r) || (0 <? sr_deny_files r) || (0 <? sr_deny_dirs r)
@@ -136,5 +137,4 @@ Fixpoint indexed_from {A} (i : Z) (l : list A) : list (Z * A) :=
   match l with [] => [] | x :: r => (i, x) :: indexed_from (i + 1) r end.
 Definition indexed {A} (l : list A) : list (Z * A) := indexed_from 0 l.
 
-Definition placement_rules (cfg : config) : list (Z * srule) :=
-  filter (fun ir => has_placement (snd ir)) (indexed (rules cfg)).
+Definition placement_rules (cfg : config) : list (Z * srule) := indexed (rules cfg).
